@@ -79,8 +79,20 @@ class FakeDF:
         return list(self._rows)
 
 
+def _raised_in_pyspark_errors(e: BaseException) -> bool:
+    tb = e.__traceback__
+    last = None
+    while tb is not None:
+        last, tb = tb, tb.tb_next
+    return last is not None and "pyspark/errors/" in last.tb_frame.f_code.co_filename.replace("\\", "/")
+
+
 def exn_tag(e: BaseException, helper: bool) -> str:
     n = type(e).__name__
+    if isinstance(e, AssertionError) and _raised_in_pyspark_errors(e):
+        # PySparkValueError(None) (e.g. row[None]) trips PySparkException.__init__'s own assertion while the library
+        # error is being constructed: the situation is "the library's Row error", the class is an accident of PySpark
+        return "ELib"
     if n in ("RowError", "PySparkValueError", "PySparkTypeError"):
         return "ELib"
     if n == "PySparkAssertionError":
@@ -845,6 +857,7 @@ CORPUS = [
     ("call", ("new", [("lit", "a")], []), [("lit", 1), ("lit", 2)]),
     ("new", [("lit", 1)], [("a", ("lit", 2))]),
     ("getitem", ("new", [], [("a", ("lit", 1))]), ("lit", "b")),
+    ("getitem", ("new", [], [("a", ("lit", 1))]), ("lit", None)),     # PySpark: AssertionError while building its ValueError
     ("getitem", ("new", [("lit", 1), ("lit", 2)], []), ("lit", "a")),
     ("getitem", ("call", ("new", [("lit", "a"), ("lit", "b")], []), [("lit", 1)]), ("lit", "b")),   # KeyError in both
     ("getattr", ("call", ("new", [("lit", "a"), ("lit", "b")], []), [("lit", 1)]), "b"),            # AttributeError
@@ -857,6 +870,12 @@ CORPUS = [
     ("getattr", ("new", [], [("count", ("lit", 1))]), "count"),                                      # the tuple method
     ("getitem", ("new", [], [("count", ("lit", 1)), ("_c0", ("lit", 2))]), ("lit", "count")),
     ("asdict", ("new", [("lit", 1)], []), False),
+    # zip consumes the generator of asDict(True) lazily: the unhashable key {2: 7} raises TypeError before conv reaches
+    # the field-less Row() (which would raise the library error)
+    ("asdict", ("call", ("pickle", ("new", [], [("A", ("lit", {2: 7})), ("index", ("lit", "x"))])),
+                [("lit", "x"), ("new", [], [])]), True),
+    ("asdict", ("call", ("new", [], [("a", ("lit", [1])), ("b", ("lit", 2))]), [("lit", 0), ("new", [("lit", 1)], [])]), True),
+    ("asdict", ("call", ("new", [], [("a", ("lit", 1)), ("b", ("lit", [2]))]), [("new", [("lit", 1)], []), ("lit", 0)]), True),
     ("asdict", ("call", ("new", [("lit", "a"), ("lit", "b"), ("lit", "a")], []), [("lit", 1), ("lit", 2), ("lit", 3)]), False),
     ("asdict", ("new", [], [("k", ("new", [], [("n", ("list", [("new", [], [("d", ("lit", {"z": 1}))])]))]))]), True),
     ("asdict", ("new", [], [("k", ("dict", [("z", ("new", [], [("p", ("lit", 1))]))]))]), True),
@@ -1015,8 +1034,26 @@ def run(ctx: core.Ctx):
             text = s_coq(s)
             if text in seen:
                 continue
-            o_sf, o_ps = _row_outcomes(s, libs)
-        except (NotEncodable, RecursionError, ValueError) as ne:
+            sides = []
+            for lib in libs:
+                try:
+                    sides.append(outcome(lambda: ex(s, lib.Row), lib.Row))
+                except (NotEncodable, RecursionError, ValueError) as ne:
+                    sides.append(ne)
+            if any(isinstance(x, Exception) for x in sides):
+                # an outcome outside the modelled universe is skipped only when BOTH implementations leave it the same way
+                kinds_ = [f"{type(x).__name__}: {str(x)[:120]}" if isinstance(x, Exception) else "encodable" for x in sides]
+                if kinds_[0] != kinds_[1]:
+                    ctx.deviation("C19/row-script-outcome-outside-model-on-one-side:" + ">".join(s_kinds(s)[:3]),
+                                  "one implementation leaves the modelled universe of outcomes, the other does not",
+                                  {"kind": "row-script", "script": s_str(s), "script_py": repr(s),
+                                   "sqlframe": str(sides[0])[:300], "pyspark": str(sides[1])[:300]})
+                unenc += 1
+                if len(unenc_why) < 5:
+                    unenc_why.append(kinds_[0])
+                continue
+            o_sf, o_ps = sides
+        except (NotEncodable, ValueError) as ne:      # the script itself is not expressible as a Coq term
             unenc += 1
             if len(unenc_why) < 5:
                 unenc_why.append(f"{type(ne).__name__}: {str(ne)[:120]}")
